@@ -94,7 +94,7 @@ class Gen:
                 if cands:
                     name = rng.choice(cands)
             is_async = rng.random() < 0.2
-            deco = rng.choice([None, None, None, '@staticmethod', '@classmethod', '@property', '@deco', '@deco_call(1)', '@prev.setter', '@prev.deleter']) if cls else \
+            deco = rng.choice([None, None, None, '@staticmethod', '@classmethod', '@property', '@deco', '@deco_call(1)', '@prev.setter', '@prev.deleter', '@Box.prev.setter', '@Box.prev.deleter']) if cls else \
                 rng.choice([None, None, None, '@deco', '@deco_call(1)', '@mod.attr', '@prev.setter'])
             lines = []
             if deco:
@@ -103,7 +103,7 @@ class Gen:
             doc, nb, prompts = gen_doc(rng, uid, indent + 4)
             if doc is not None:
                 lines += [pad + '    r"""', doc, pad + '    """']
-            hidden = deco in ('@prev.setter', '@prev.deleter')
+            hidden = deco in ('@prev.setter', '@prev.deleter', '@Box.prev.setter', '@Box.prev.deleter')     # also the dotted spelling (a subclass extending an inherited property)
             if visible and not hidden:
                 self.expected.append(((cls + '.' if cls else '') + name, doc, nb, prompts))
             # nested definitions are never collected
@@ -153,8 +153,8 @@ def gen_module(rng):
         if moddoc is not None:
             lines += ['r"""', moddoc, '"""']
             g.expected.append(('__doc__', moddoc, nb, prompts))
-    lines += ['prev = property(lambda s: 0)', 'def deco(f): return f', 'def deco_call(a): return deco', '']
-    g.expected += [('deco', None, 0, False), ('deco_call', None, 0, False)]
+    lines += ['prev = property(lambda s: 0)', 'def deco(f): return f', 'def deco_call(a): return deco', 'class Box(object):', '    prev = prev', '']
+    g.expected += [('deco', None, 0, False), ('deco_call', None, 0, False), ('Box', None, 0, False)]
     lines += g.body(0, 0, None, True)
     return '\n'.join(lines) + '\n', g.expected
 
